@@ -373,8 +373,8 @@ Proof. unfold rfinish. destruct (rt_cur th); repeat split; reflexivity. Qed.
 Lemma acur_some x o : acur x = Some o -> x = Some o /\ notemp o = true.
 Proof. destruct x as [[v| |]|]; cbn; intros H; try discriminate; injection H as <-; auto. Qed.
 
-Lemma threl_mk hdl th th' lt lt' :
-  threl hdl th lt -> rt_cur th' = rt_cur th -> rt_ops th' = rt_ops th -> rt_out th' = rt_out th ->
+Lemma threl_mk hdl0 hdl th th' lt lt' :
+  threl hdl0 th lt -> rt_cur th' = rt_cur th -> rt_ops th' = rt_ops th -> rt_out th' = rt_out th ->
   lt_cur lt' = lt_cur lt -> lt_ops lt' = lt_ops lt -> lt_out lt' = lt_out lt ->
   pcr hdl (rt_pc th') (lt_pc lt') -> threl hdl th' lt'.
 Proof. intros (A & B & C & D) E1 E2 E3 E4 E5 E6 P. repeat split; congruence. Qed.
@@ -1417,6 +1417,96 @@ Section Step.
         * rewrite filter_app, <- Hkept. cbn [filter]. rewrite Hk, app_nil_r. reflexivity.
       + pose proof (X_pc0 _ _ H) as Hx2. unfold xpc in *. destruct (rt_pc th2); auto.
         rewrite Hst; [exact Hx2|]. intros E. rewrite E in Hx2. congruence.
+  Qed.
+
+  (* ---- the successful CAS on q->head *)
+  Lemma skipn_S_in {A} (l : list A) k x : In x (skipn (S k) l) -> In x (skipn k l).
+  Proof.
+    intros H. destruct (in_skipn_nth _ _ _ H) as (j & Hj & Hn). eapply nth_in_skipn; [exact Hn|lia].
+  Qed.
+
+  Lemma rpriv_priv hdl rp ap nd : rpriv rp = Some nd -> pcr hdl rp ap -> priv ap = Some (pl nd).
+  Proof. destruct rp; cbn [rpriv pcr apc]; try discriminate; intros [= <-] ->; reflexivity. Qed.
+
+  Lemma case_RdCasHead_ok hd nx p0 : rt_pc th = RdCasHead hd nx p0 -> pa (r_head c) = pa hd ->
+    SGoal (mkRS (r_heap c) nx (r_tail c) (r_free c) (r_bump c) (r_fmax c)
+                (lset_nth (r_thr c) t (rgoto th (RdRel hd p0)))
+                (r_lid c) (r_own c) (rg_enq c) (rg_deq c ++ [(t, p0)])).
+  Proof.
+    intros Hpc Ea. pose proof Hpcr as Hpcl. rewrite Hpc in Hpcl. cbn [pcr] in Hpcl. destruct Hpcl as (p' & Hpcl & Hp').
+    assert (Hpr : prot0 (rt_pc th) = Some hd) by (rewrite Hpc; reflexivity).
+    destruct (head_live _ _ _ _ _ HI R) as (TA & TB & TC).
+    destruct (H_prot _ _ _ _ _ R t th hd Hth Hpr) as (PA & PB & PC & PD).
+    assert (El : pl (r_head c) = pl hd) by (rewrite <- TB, <- PB, Ea; reflexivity).
+    specialize (Hp' El). subst p'.
+    set (a := pa hd) in *. rewrite Ea in TA.
+    assert (Habs : lstep s t = Some (mkLS (s_heap s) (pl nx) (s_tail s) (s_fresh s) (lset_nth (s_thr s) t (lgoto lt (QdRel (pl hd) p0)))
+                                          (g_enq s) (g_deq s ++ [(t, p0)]), None)).
+    { absstep Hlt Hpcl. rewrite (R_head _ _ _ _ _ R), El, N.eqb_refl. reflexivity. }
+    set (s' := mkLS (s_heap s) (pl nx) (s_tail s) (s_fresh s) (lset_nth (s_thr s) t (lgoto lt (QdRel (pl hd) p0))) (g_enq s) (g_deq s ++ [(t, p0)])) in *.
+    destruct (abs1 _ _ _ _ _ HI HT Habs) as (HI' & HT').
+    { intros th0 nd0 tl0 H0. rewrite Hlt in H0. injection H0 as <-. rewrite Hpcl. discriminate. }
+    pose proof HI as (G & TO & _). pose proof HI' as (G' & _).
+    pose proof (g_head _ _ _ _ _ _ _ G) as Hh. pose proof (g_head _ _ _ _ _ _ _ G') as Hh'.
+    cbn [s' s_head g_deq] in Hh'. rewrite app_length in Hh'. cbn [length] in Hh'. rewrite Nat.add_1_r in Hh'.
+    rewrite (R_head _ _ _ _ _ R), El in Hh. rewrite (R_deq _ _ _ _ _ R) in Hh, Hh'.
+    pose proof (g_nd _ _ _ _ _ _ _ G) as HndL.
+    set (st' := fun x => if x =? a then SP t else st x).
+    assert (Hst : forall x, st x <> SA -> st' x = st x).
+    { intros x H. unfold st'. destruct (N.eqb_spec x a); [subst x; contradiction|reflexivity]. }
+    assert (Hsu : forall x, st' x = SU <-> st x = SU).
+    { intros x. unfold st'. destruct (N.eqb_spec x a); [subst x; rewrite TA; split; discriminate|tauto]. }
+    assert (Hsf : forall x, st' x = SF <-> st x = SF).
+    { intros x. unfold st'. destruct (N.eqb_spec x a); [subst x; rewrite TA; split; discriminate|tauto]. }
+    exists 1%nat, s', L. split; [eapply lrun1; eauto|split; [exact HI'|split; [exact HT'|]]].
+    exists la, st'. pose proof R as R0. destruct R.
+    constructor; cbn [s' r_head r_tail r_lid rg_enq rg_deq r_thr r_heap r_own r_free r_bump r_fmax
+                      s_head s_tail s_fresh g_enq g_deq s_thr s_heap]; auto.
+    - congruence.
+    - rewrite !lset_length. assumption.
+    - intros t2 rt H. apply nth_lset_case in H. destruct H as [(-> & -> & Hlen)|(Hne & H)].
+      + exists (lgoto lt (QdRel (pl hd) p0)). split; [apply nth_lset_eq'; lia|].
+        eapply threl_mk; try exact Htr; try reflexivity. cbn. eauto.
+      + rewrite nth_lset_ne by congruence. destruct (R_thr0 _ _ H) as (lt2 & Hl2 & (P1 & P2)). exists lt2. split; [exact Hl2|].
+        split; [|exact P2]. destruct (rt_pc rt) eqn:Erp; cbn [pcr] in *; auto.
+        destruct P1 as (p2 & Q1 & Q2). exists p2. split; [exact Q1|]. intros Hx. exfalso.
+        pose proof (TO t2 lt2 Hl2) as Hp2. rewrite Q1 in Hp2. cbn [pcinv] in Hp2. destruct Hp2 as (_ & Hb & _).
+        rewrite (R_deq _ _ _ _ _ R0) in Hb. unfold before in Hb. rewrite <- Hx in Hb.
+        eapply nodup_not_firstn; eauto.
+    - intros b H1 H2. apply R_heap0; [rewrite <- Hsu|rewrite <- Hsf]; assumption.
+    - intros b. rewrite Hsu. apply G_U0.
+    - intros b. rewrite Hsf. apply G_F0.
+    - intros b H. apply G_own0. rewrite <- Hsu. exact H.
+    - intros t2 th2 b H Hb. apply nth_lset_case in H. destruct H as [(-> & -> & _)|(Hne & H)].
+      + assert (E : st b = SR t2) by (eapply G_R0; [exact Hth|unfold eff_rl in *; rewrite Hpc; exact Hb]).
+        rewrite Hst; [exact E|congruence].
+      + pose proof (G_R0 _ _ _ H Hb) as E. rewrite Hst; [exact E|congruence].
+    - intros t2 th2 H. apply nth_lset_case in H. destruct H as [(-> & -> & _)|(Hne & H)]; [cbn [rgoto rt_rl]|]; eauto.
+    - intros l Hl0. rewrite app_length in Hl0. cbn [length] in Hl0. rewrite Nat.add_1_r in Hl0.
+      destruct (G_chain0 l (skipn_S_in _ _ _ Hl0)) as [A B]. split; [|exact B].
+      unfold st'. destruct (N.eqb_spec (la l) a) as [E|E]; [exfalso|exact A].
+      assert (l = pl hd) by (rewrite <- B, E; exact PB). subst l.
+      destruct (in_skipn_nth _ _ _ Hl0) as (j & Hj & Hn).
+      assert (j = length (rg_deq c)) by (eapply nodup_idx; eauto). lia.
+    - intros t2 th2 nd H Hp. apply nth_lset_case in H. destruct H as [(-> & -> & _)|(Hne & H)]; [discriminate Hp|].
+      destruct (G_priv0 _ _ _ H Hp) as [A B]. split; [|exact B].
+      unfold st'. destruct (N.eqb_spec (pa nd) a) as [E|E]; [exfalso|exact A].
+      destruct (R_thr0 _ _ H) as (lt2 & Hl2 & (P1 & P2)).
+      pose proof (rpriv_priv _ _ _ _ Hp P1) as Hpv.
+      destruct (priv_privn _ _ _ _ _ _ _ _ Hpv (TO t2 lt2 Hl2)) as (v2 & _ & (_ & _ & Hni & _)).
+      apply Hni. assert (pl nd = pl hd) by (rewrite <- B, E; exact PB). rewrite H0. eapply nth_error_In; eauto.
+    - apply (G_gpp0 t th nx Hth). rewrite Hpc. right; left; reflexivity.
+    - intros b H. apply G_gpn0. rewrite <- Hsu. exact H.
+    - intros t2 th2 p H Hp. apply nth_lset_case in H. destruct H as [(-> & -> & _)|(Hne & H)]; [|eauto].
+      cbn in Hp. destruct Hp as [<-|[]]. apply (G_gpp0 t th hd Hth). rewrite Hpc. left; reflexivity.
+    - intros t2 th2 p H Hp. apply nth_lset_case in H. destruct H as [(-> & -> & _)|(Hne & H)]; [discriminate Hp|].
+      destruct (H_prot0 _ _ _ H Hp) as (A & B & C & D). repeat split; auto; [rewrite Hsf|rewrite Hsu]; assumption.
+    - intros t2 th2 p u uth H Hp Hu. apply nth_lset_case in H. destruct H as [(-> & -> & _)|(Hne & H)]; [discriminate Hp|].
+      apply nth_lset_case in Hu. destruct Hu as [(-> & -> & _)|(Hne2 & Hu)]; [unfold scan_cov; cbn; exact I|eauto].
+    - intros t2 th2 H. apply nth_lset_case in H. destruct H as [(-> & -> & _)|(Hne & H)].
+      + unfold xpc, st'. cbn. rewrite N.eqb_refl. reflexivity.
+      + pose proof (X_pc0 _ _ H) as Hx2. unfold xpc in *. destruct (rt_pc th2); auto.
+        rewrite Hst; [exact Hx2|congruence].
   Qed.
 
 End Step.
